@@ -44,10 +44,27 @@ def run(ctx):
             hist[k] = hist.get(k, 0) + v
         if sample and len(samples) < 2:
             samples.append([l[:100] for l in sample])
+    # the large file (V3, > 236 FAT sectors, two DIFAT sectors): the bytes must reopen to the live state
+    hdir = ctx.path("huge")
+    os.makedirs(hdir, exist_ok=True)
+    hops, himp = ctx.path("huge.ops"), ctx.path("huge.impl")
+    rc, out = C.harness(["phys", "--huge", hdir, "--ops", hops, "--impl", himp])
+    _, _, oracle = C.parse_stats(out)
+    for msg in oracle:
+        C.add_violation(ctx, P.signature(msg), msg[:400], "# C02 on the 18 MB history (harness phys --huge <dir>): %s\n%s\n" % (msg[:1500], open(hops).read() if os.path.exists(hops) else ""))
+    img = os.path.join(hdir, "huge_v3.cfb")
+    if os.path.exists(img):
+        os.remove(img)
+    total_ops += 8
+    if not quick:
+        hmod = ctx.path("huge.model")
+        C.driver(["phys"], hops, hmod)
+        for (ln, a, b) in C.diff_lines(himp, hmod)[:2]:
+            ctx.disagreements.append({"origin": "huge history line %d" % ln, "level": "P", "implementation": a[-200:], "model": b[-200:], "theorem": THM})
     ctx.coverage.update({
         "evaluations": total_ops,
         "distinct_nontrivial": distinct,
-        "rule": P.RULE + ". C02 oracle on the implementation: at sampled boundaries with no dirty handle the backing bytes (no flush) are opened with open and open_strict and the full logical dump (walk with metadata + every stream's bytes) is compared with the live object's; 10% of the calls are reopen (the history continues on the reopened bytes, results still compared with the abstract model); `--big` adds streams of 70-130 kB (several FAT sectors in V3)",
+        "rule": P.RULE + ". C02 oracle on the implementation: at sampled boundaries with no dirty handle the backing bytes (no flush) are opened with open and open_strict and the full logical dump (walk with metadata + every stream's bytes) is compared with the live object's; 10% of the calls are reopen (the history continues on the reopened bytes, results still compared with the abstract model); `--big` adds streams of 70-130 kB (several FAT sectors in V3); plus one 18 MB version-3 history (275 FAT sectors, two DIFAT sectors) whose bytes are reopened in both modes (thorough: also in lock-step with the model)",
         "samples": samples,
         "traces_validated_against_impl": total_h,
         "boundaries_reopened_both_modes": hist.get("c02:boundary-judged", 0),
